@@ -251,6 +251,9 @@ DEFAULT_PROFILE: Dict[str, Any] = {
 }
 
 
+RANGE_KEYS = ("steps", "n_vehicles", "n_stations", "n_bases", "n_requests")
+
+
 def _pick(rnd: random.Random, v):
     if isinstance(v, tuple) and len(v) == 2 and all(isinstance(x, int) for x in v):
         return rnd.randint(v[0], v[1])
@@ -294,6 +297,9 @@ def random_spec(seed: int, profile: Optional[Dict[str, Any]] = None) -> Dict[str
     P = dict(DEFAULT_PROFILE)
     if profile:
         P.update(profile)
+    for k in RANGE_KEYS:  # (lo, hi) ranges survive a JSON round trip as lists
+        if isinstance(P.get(k), (list, tuple)) and len(P[k]) == 2:
+            P[k] = (int(P[k][0]), int(P[k][1]))
     rnd = random.Random(seed * 1000003 + 17)
     # --- network
     nt = P["network"] or rnd.choice(["euclidean", "euclidean", "grid"])
